@@ -384,14 +384,32 @@ def parse_function(body):
     if head.startswith("fn "):
         f.kind = "fn"
         # name up to the parameter list: find first '(' at angle depth 0 that starts "(_1:" or "()"
-        m = re.match(r"^fn (.*?)\((_1: .*|)\) -> (.*) \{$", head)
-        if not m:
-            m2 = re.match(r"^fn (.*?)\((.*)\) \{$", head)
-            if not m2:
-                return None
-            name, params, ret = m2.group(1), m2.group(2), "()"
+        # the parameter list starts at the first "(_1: " / "()" and ends at its matching parenthesis (the return type may itself
+        # contain "fn(..) -> .." and parentheses)
+        ms = re.search(r"\((?=_1: |\))", head)
+        if not ms:
+            return None
+        i0 = ms.start()
+        depth, i = 0, i0
+        while i < len(head):
+            ch = head[i]
+            if ch in "([{":
+                depth += 1
+            elif ch in ")]}":
+                depth -= 1
+                if depth == 0:
+                    break
+            i += 1
+        if depth != 0:
+            return None
+        name, params, rest = head[3:i0], head[i0 + 1:i], head[i + 1:]
+        mr = re.match(r"^ -> (.*) \{$", rest)
+        if mr:
+            ret = mr.group(1)
+        elif rest.strip() == "{":
+            ret = "()"
         else:
-            name, params, ret = m.group(1), m.group(2), m.group(3)
+            return None
         f.name, f.ret = name, ret
         f.params = []
         if params.strip():
